@@ -152,6 +152,9 @@ def run(rep, tier):
     _methods(rep, Ctx(rep, "cranelift"), ra, rb, rd, tag="[cranelift]")
     _compile_rules(rep, cx)
     _compile_rules(rep, Ctx(rep, "cranelift"), tag="[cranelift]")
+    # which function runs for a helper id is part of "the registered helpers": registration must replace, not keep
+    import props.c08 as c08
+    c08.register_rules(rep, cx)
     # R10.i: what the wrappers themselves write into the fixed metadata buffer is rewritten on every execution,
     # so nothing of an earlier execution (other than bytes a program stored) is visible to the next one
     ri = rep.rule("R10.i", "fixed-mbuff executions rewrite both pointer slots on every path that runs the program (no wrapper-written state survives from an earlier execution)", floor=2)
